@@ -448,6 +448,51 @@ func Blocked(frames []string, f func()) (stack string, blocked bool) {
 	}
 }
 
+// BlockedAny is Blocked for multi-goroutine scenarios (a complete wallet): f may
+// itself be waiting on a channel for a wallet goroutine that is the one parked on
+// a lock.  While f has not returned, every goroutine of the process is inspected
+// every few seconds; a goroutine with one of the frames on its stack whose
+// header reports a CONTINUOUS wait of at least one minute on a sync.Mutex /
+// RWMutex ("[sync.Mutex.Lock, 1 minutes]", as printed by the runtime) is a lock
+// nobody is going to release: lock hand-overs in the code under test last
+// microseconds.  Its stack is returned.
+func BlockedAny(frames []string, f func()) (stack string, blocked bool) {
+	done := make(chan struct{})
+	go func() {
+		defer close(done)
+		f()
+	}()
+	for {
+		select {
+		case <-done:
+			return "", false
+		case <-time.After(5 * time.Second):
+		}
+		buf := make([]byte, 16<<20)
+		buf = buf[:runtime.Stack(buf, true)]
+		for _, g := range strings.Split(string(buf), "\n\n") {
+			nl := strings.Index(g, "\n")
+			if nl < 0 || !strings.HasPrefix(g, "goroutine ") {
+				continue
+			}
+			hdr := g[:nl]
+			if !(strings.Contains(hdr, "sync.Mutex.Lock") || strings.Contains(hdr, "sync.RWMutex")) || !strings.Contains(hdr, " minutes]") {
+				continue
+			}
+			for _, fr := range frames {
+				if strings.Contains(g, fr) {
+					select {
+					case <-done:
+						return "", false
+					default:
+					}
+					return g, true
+				}
+			}
+		}
+	}
+}
+
 // PanicKey derives the structural signature of a recovered panic from its stack.
 func PanicKey(stack string) string {
 	if strings.Contains(stack, "/repo/") {
